@@ -140,6 +140,36 @@ def classify(e):
     return 'ERuntime'
 
 
+# ----------------------------------------------------------------- variants
+def measure_variants():
+    """Which behaviour does the current source exhibit on the replay inputs of the recorded findings?
+    (True = repaired).  Passed into every case as the model's variant switches."""
+    import odl
+
+    def works(f, check):
+        try:
+            return bool(check(f()))
+        except Exception:
+            return False
+    grow = works(lambda: np.add(odl.rn(3).one(), np.ones((2, 3))), lambda r: r.shape == (2, 3))
+    neg = works(lambda: np.add.reduce(odl.uniform_discr([0, 0], [1, 3], (2, 3)).one(), axis=-1),
+                lambda r: r.shape == (2,))
+    x = odl.uniform_discr(0, 1, 3).one()
+    boolouter = works(lambda: np.less.outer(x, x), lambda r: r.shape == (3, 3))
+    return {'grow': grow, 'negaxis': neg, 'boolouter': boolouter}
+
+
+VARIANTS = None
+
+
+def variant_term():
+    global VARIANTS
+    if VARIANTS is None:
+        VARIANTS = measure_variants()
+    v = VARIANTS
+    return '(mkVar %s %s %s)' % (C.b(v['grow']), C.b(v['negaxis']), C.b(v['boolouter']))
+
+
 # ------------------------------------------------------------------ a call
 class Call(object):
     """One ufunc-method call over a store.
@@ -302,8 +332,8 @@ class Call(object):
                                      C.zs(self.idx or []) + '%Z')
         outs = '[]' if self.outs is None else C.lst(
             ['None' if s is None else '(Some %s)' % self.op_term(s) for s in self.outs])
-        t = ('(mkCase %s %d %s %s %s %s %s %s %s %s %s %s)'
-             % (uf, self.ufunc.nout, C.lst(rdt), oracle, C.lst([narr_term(b) for b in self.bufs]),
+        t = ('(mkCase %s %s %d %s %s %s %s %s %s %s %s %s %s)'
+             % (variant_term(), uf, self.ufunc.nout, C.lst(rdt), oracle, C.lst([narr_term(b) for b in self.bufs]),
                 self.op_term(slf), METH[self.method], C.lst([self.op_term(s) for s in self.ins]), kw, outs,
                 odl_t, raw_t))
         return t, odl_s, raw_s
@@ -676,6 +706,8 @@ TRUSTED = ['harness/c17.py observation of ODL objects (type, space, np.shares_me
 
 
 def correspondence(rng, tier):
+    global VARIANTS
+    VARIANTS = None
     cs = C.CaseSet('ufunc', ['Lib.Axis', 'C17.Arr', 'C17.Model', 'C17.Corr'], 'check', 'ucase')
     for call, desc, key in gen_calls(rng, tier):
         try:
